@@ -2,9 +2,45 @@ import Std.Data.HashMap
 import MxV.Model.Msimple
 import MxV.Model.Mfull
 import MxV.Gen.Templates
+import MxV.Gen.Values
 /-! Line-protocol driver for the executable models (Mathlib-free; built as `lean_exe mxdriver`).
     One operation per input line, one canonical observation line per operation. -/
 open Std
+
+
+/-! ### value encoding on the wire -/
+def hexVal (c : Char) : Nat :=
+  if c.isDigit then c.toNat - '0'.toNat else if 'a' ≤ c && c ≤ 'f' then c.toNat - 'a'.toNat + 10 else 0
+
+def unhex (h : String) : String :=
+  let rec go (l : List Char) (acc : ByteArray) : ByteArray :=
+    match l with
+    | a :: b :: r => go r (acc.push (UInt8.ofNat (hexVal a * 16 + hexVal b)))
+    | _ => acc
+  match String.fromUTF8? (go h.toList ByteArray.empty) with
+  | some s => s
+  | none => ""
+
+def hexDigit (n : Nat) : Char := if n < 10 then Char.ofNat (48 + n) else Char.ofNat (87 + n)
+def tohex (s : String) : String :=
+  String.ofList (s.toUTF8.toList.flatMap fun b => [hexDigit (b.toNat / 16), hexDigit (b.toNat % 16)])
+
+open Values in
+def parseVal (t : String) : Option PyVal :=
+  if t == "none" then some .none
+  else if t == "nan" then some .fnan
+  else if t == "inf" then some (.finf false)
+  else if t == "-inf" then some (.finf true)
+  else match t.splitOn ":" with
+    | ["s", h] => some (.str (unhex h))
+    | ["s"] => some (.str "")
+    | ["i", z] => z.toInt?.map .int
+    | ["b", b] => some (.bool (b == "1"))
+    | ["f", sg, m, e, r] => match m.toNat?, e.toInt? with
+      | some m, some e => some (.float (sg == "-") m e (unhex r))
+      | _, _ => none
+    | _ => none
+
 
 structure Inst where
   tkey : Nat
@@ -189,6 +225,30 @@ def step (st : St) (line : String) : St × String :=
         (st, if p.accepts ws then "yes" else "no")
       | none => (st, "bad-type")
     | none => (st, "bad-op")
+  | ["val", k, v] =>
+    match k.toNat?, parseVal v with
+    | some k, some pv =>
+      match Values.lookupDef k Gen.simpleDefs with
+      | some d =>
+        let r := Values.validate Gen.valuesEnv 6 d pv
+        (st, if r == .ok then "ok:" ++ tohex (Values.pyStr pv) else r.str)
+      | none => (st, "bad-type")
+    | _, _ => (st, "bad-op")
+  | ["elemval", c, v] =>
+    -- XMLElement.value_ = v  for the element class c (value validated by TYPE(v))
+    match c.toNat?, parseVal v with
+    | some c, some pv =>
+      match Gen.elemValueTypes.find? (·.1 == c) with
+      | some (_, kind, tk) =>
+        if kind == 2 then (st, "ok:" ++ tohex (Values.pyStr pv))
+        else match Values.lookupDef tk Gen.simpleDefs with
+          | some d =>
+            let r := Values.validate Gen.valuesEnv 6 d pv
+            (st, if r == .ok then "ok:" ++ tohex (Values.pyStr pv) else r.str)
+          | none => (st, "bad-type")
+      | none => (st, "bad-class")
+    | _, _ => (st, "bad-op")
+  | ["token", h] => (st, tohex (Values.cleanedToken (unhex h)))
   | ["tame", t] =>
     match t.toNat? with
     | some t => match lookupT t Gen.implTemplates with
